@@ -172,8 +172,8 @@ SellsFirst(s) == IF Bug = "buys-first" THEN SelectSeq(s, LAMBDA o : ~IsSell(o)) 
                  ELSE SelectSeq(s, IsSell) \o SelectSeq(s, LAMBDA o : ~IsSell(o))
 
 \* stage 5: price, consideration and commission of one fill
-SidePrice(a, q) == IF q > 0 THEN quote[a].ask ELSE quote[a].bid
-   \* the code tests  order.direction > 0 ; direction of a zero quantity is +1 -> ask
+\* the ask for a buy, the bid for a sell; the code tests  order.direction > 0  and the direction of a zero
+\* quantity is +1, so a zero-quantity order is priced at the ask
 SidePriceCode(a, q) == IF Bug = "fill-at-mid" THEN (quote[a].bid + quote[a].ask) \div 2
                        ELSE IF q >= 0 THEN quote[a].ask ELSE quote[a].bid
 Consideration(p, q) == RoundHalfEven(p * q, 1000)            \* whole currency units
